@@ -164,29 +164,46 @@ class Case:
 
     def observe(self):
         iom = mx.core.mxsys.iomanager
-        mgr = []
-        for (group, path), io_ in list(iom.ios.items()):
-            for spec in io_.specs.values():
-                mgr.append(self.spec_view(self.midx(group), spec))
-        api, gs, refs = [], [], []
+        mgr, api, gs, refs, crash = [], [], [], [], []
+
+        def guarded(part, f):
+            try:
+                f()
+            except Exception as e:          # the public observers themselves must not raise
+                crash.append("%s:%s" % (part, type(e).__name__))
+
+        def do_mgr():
+            for (group, path), io_ in list(iom.ios.items()):
+                for spec in io_.specs.values():
+                    mgr.append(self.spec_view(self.midx(group), spec))
+        guarded("iomanager.ios", do_mgr)
         for i, mod in self.models.items():
             if i in self.closed:
                 continue
-            for spec in mod.iospecs:
-                api.append(self.spec_view(i, spec))
-            for tok, obj in list(self.vals.items()):
-                try:
-                    mod.get_spec(obj)
-                    gs.append([i, tok])
-                except ValueError:
-                    pass
-            for sname, name, val in self.iter_refs(mod):
-                if sname is None:
-                    derived = False
-                else:
-                    derived = bool(mx.get_object("%s.%s.%s" % (mod.name, sname, name), as_proxy=True).is_derived())
-                refs.append([i, None if sname is None else RNAMES[sname], RNAMES.get(name, name),
-                             self.token(val), derived])
+
+            def do_api():
+                for spec in mod.iospecs:
+                    api.append(self.spec_view(i, spec))
+
+            def do_gs():
+                for tok, obj in list(self.vals.items()):
+                    try:
+                        mod.get_spec(obj)
+                        gs.append([i, tok])
+                    except ValueError:
+                        pass
+
+            def do_refs():
+                for sname, name, val in self.iter_refs(mod):
+                    if sname is None:
+                        derived = False
+                    else:
+                        derived = bool(mx.get_object("%s.%s.%s" % (mod.name, sname, name), as_proxy=True).is_derived())
+                    refs.append([i, None if sname is None else RNAMES[sname], RNAMES.get(name, name),
+                                 self.token(val), derived])
+            guarded("Model.iospecs", do_api)
+            guarded("Model.get_spec", do_gs)
+            guarded("refs", do_refs)
         try:
             mx.core.mxsys._check_sanity()
             sane = True
@@ -195,7 +212,7 @@ class Case:
         except Exception as e:    # a crash inside the sanity check is a failed check as well
             sane = "crash:%s" % type(e).__name__
         return {"mgr": sorted(mgr, key=repr), "api": sorted(api, key=repr), "gs": sorted(gs),
-                "refs": sorted(refs, key=repr), "sane": sane}
+                "refs": sorted(refs, key=repr), "sane": sane, "crash": crash}
 
     # -- save / load round trip (property oracle only; pandas/openpyxl I/O) ------
     def roundtrip(self, tag):
